@@ -470,6 +470,145 @@ def _c18_nontrivial(r):
 def _c19_nontrivial(r):
     t = r["impl"].split(" ")
     return t[0] == "ok" and len(t) > 3 and int(t[2]) >= 1
+# ------------------------------------------------------------------------------ C02
+
+def _encode_parse(op):
+    """structure of an `encode` op: (head tokens, questions, answers, authorities, additionals),
+    every entry a list of tokens"""
+    t = op.split(" ")
+    i = 3
+    head = t[:3]
+
+    def rec(i):
+        j = i + 4
+        j += 5 if t[j] == "srv" else 2
+        return j
+
+    nq = int(t[i]); i += 1
+    qs = []
+    for _ in range(nq):
+        qs.append(t[i:i + 2]); i += 2
+    nan = int(t[i]); i += 1
+    an = []
+    for _ in range(nan):
+        j = rec(i) + 1
+        an.append(t[i:j]); i = j
+    secs = []
+    for _ in range(2):
+        n = int(t[i]); i += 1
+        sec = []
+        for _ in range(n):
+            j = rec(i)
+            sec.append(t[i:j]); i = j
+        secs.append(sec)
+    return head, qs, an, secs[0], secs[1]
+
+
+def _encode_render(head, qs, an, au, ad):
+    out = list(head)
+    for sec in (qs, an, au, ad):
+        out.append(str(len(sec)))
+        for e in sec:
+            out += e
+    return " ".join(out)
+
+
+def _shrink_encode(op):
+    try:
+        head, qs, an, au, ad = _encode_parse(op)
+    except (ValueError, IndexError):
+        return
+    secs = [qs, an, au, ad]
+    for si, sec in enumerate(secs):
+        if len(sec) > 8:            # halves first
+            for half in (sec[:len(sec) // 2], sec[len(sec) // 2:]):
+                c = list(secs); c[si] = half
+                yield _encode_render(head, *c)
+        for k in range(min(len(sec), 40)):
+            c = list(secs); c[si] = sec[:k] + sec[k + 1:]
+            yield _encode_render(head, *c)
+
+
+def _mutate_encode(op, seed):
+    """neighbours of an encode op that stay well-formed: drop / duplicate / swap entries,
+    change numeric fields to boundary values, replace ASCII bytes of names by '.', '\\', 'a'"""
+    rnd = random.Random(seed)
+    try:
+        head, qs, an, au, ad = _encode_parse(op)
+    except (ValueError, IndexError):
+        return
+    while True:
+        secs = [list(qs), [list(e) for e in an], [list(e) for e in au], [list(e) for e in ad]]
+        h = list(head)
+        c = rnd.randrange(6)
+        nonempty = [i for i in range(4) if secs[i]]
+        if c == 0:
+            h[1] = str(rnd.choice([0, 0x8400, 0x8000, 0x0200]))
+        elif not nonempty:
+            continue
+        else:
+            si = rnd.choice(nonempty)
+            k = rnd.randrange(len(secs[si]))
+            e = list(secs[si][k])
+            if c == 1:
+                del secs[si][k]
+            elif c == 2:
+                secs[si].insert(rnd.randrange(len(secs[si]) + 1), e)
+            elif c == 3 and si > 0:
+                e[3] = str(rnd.choice([0, 1, 120, 2 ** 31, 2 ** 32 - 1]))
+                e[2] = str(rnd.choice([1, 0x8001, 0x7FFF]))
+                secs[si][k] = e
+            elif c == 4 and si > 0 and e[4] == "txt" and e[5] != "-":
+                b = bytes.fromhex(e[5])
+                d = rnd.choice([-1, 1, -2, 2])
+                b = b[:max(0, len(b) + d)] if d < 0 else b + b"\x00" * d
+                e[5] = b.hex() if b else "-"
+                secs[si][k] = e
+            else:
+                # a name token: owner (index 0) or the rdata name
+                idx = [0]
+                if si > 0 and e[4] == "ptr":
+                    idx.append(5)
+                if si > 0 and e[4] == "srv":
+                    idx.append(8)
+                j = rnd.choice(idx)
+                if e[j] == "-":
+                    continue
+                b = bytearray.fromhex(e[j])
+                pos = [x for x in range(len(b)) if b[x] < 0x80]
+                if not pos:
+                    continue
+                b[rnd.choice(pos)] = rnd.choice([0x2e, 0x5c, 0x61])
+                e[j] = b.hex()
+                secs[si][k] = e
+        yield _encode_render(h, *secs)
+
+
+shrinkers["encode"] = _shrink_encode
+mutators["encode"] = _mutate_encode
+
+
+def _c02_meas(r):
+    return {k: int(v) for k, v in re.findall(r"(\w+)=(\d+)", r.get("meas", ""))}
+
+
+def _c02_nontrivial(r):
+    # at least one compression pointer was emitted
+    return r["op"].startswith("encode ") and _c02_meas(r).get("ptrs", 0) > 0
+
+
+def _c02_extra(recs):
+    enc = [r for r in recs if r["op"].startswith("encode ")]
+    ms = [_c02_meas(r) for r in enc]
+    return dict(
+        encode_cases=len(enc),
+        with_compression_pointer=sum(1 for m in ms if m.get("ptrs", 0) > 0),
+        with_record_left_out_or_expired=sum(1 for m in ms if m.get("left", 0) > 0),
+        with_several_packets=sum(1 for m in ms if m.get("pk", 0) > 1),
+        first_packet_at_8971_8972=sum(1 for m in ms if m.get("max", 0) in (8971, 8972)),
+        largest_packet=max([m.get("max", 0) for m in ms] or [0]),
+        encoder_panics_outside_domain=sum(1 for r in enc if r["impl"] == "panic"),
+    )
 
 CONFIG = {
     "C08": dict(
@@ -673,6 +812,43 @@ CONFIG = {
             "lower-casing modelled on ASCII only; record kind consistent with record type (as DnsIncoming produces them)",
         ],
     ),
+    "C02": dict(
+        modules=["Mdns.Props.C02"],
+        model_files="Mdns/Model/Encode.lean",
+        nontrivial=_c02_nontrivial,
+        extra_evidence=_c02_extra,
+        rule="messages generated from VERIF_SEED by vharness (c02.rs) and built through the crate's own add_* calls: names from "
+             "label pools with shared suffixes, labels containing '.', '\\', multi-byte UTF-8 and of 1, 62, 63 bytes; PTR/SRV/TXT/A/AAAA "
+             "in every section, TTLs over the whole u32 range, aged known answers (now != 0); packets filled to a small gap followed "
+             "by a record that does not fit and shares name suffixes with the records after it (roll-back), first packets "
+             "calibrated to 8971/8972/8973 bytes, TXT records up to 9000 bytes and up to 1500 records (totals up to 4x the limit, "
+             "TC continuation for queries, break for responses), question-only messages beyond 8972 and 16384 bytes, and a "
+             "malformed share (64-byte labels, empty labels, trailing backslash, names over 255 octets); plus escape / "
+             "parse-escaped ops. Non-trivial = an encode case whose packets contain at least one compression pointer. "
+             "Distinct = distinct op lines.",
+        level_text="Lean theorems for ALL messages in the domain (names <= 255 octets, RDATA kind matching the type; labels 1..=63 bytes implied), "
+                   "with compression, escaping, roll-back and TC continuation: encode_sound (an independent RFC 1035 reference reader written in "
+                   "Lean parses every packet to exactly the questions and an in-order subsequence of the records that were added, field by "
+                   "field with label SEQUENCES; every packet <= 8972 bytes; TC on all but the last), header_counts, tc_flags, carried_in_order, "
+                   "names_invariant_writeName / names_invariant_writeRecord (compression-table invariant, exact restore on roll-back), "
+                   "encode_no_panic, labels_escape (registration escaping inverted by the wire writer), parseEscaped_no_empty. The size bound and "
+                   "the round trip carry the hypothesis questionsSize <= 8972, which is the known defect D17. The encoder model is compared BYTE "
+                   "FOR BYTE with DnsOutgoing::to_data_on_wire of the working tree on every run; the conclusion of encode_sound in decidable form "
+                   "(soundCore, theorem soundCore_holds) is evaluated with the same reference reader on the REAL packets, plus: no record left "
+                   "out that would fit; the crate's own decoder agrees.",
+        partial=["decode_agrees (the crate's own decoder reads the same content) is stated in Props/C02.lean as part of `C02_full` but not proved; "
+                 "it is checked on the real packets of every run by the monitor clauses own-decoder-rejects / own-decoder-differs",
+                 "that a left-out record did not fit is checked by the monitor (clause dropped-record-that-fits), in the model it is the "
+                 "literal condition of the roll-back branch"],
+        level_note="Trusted: Lean kernel; axioms propext, Classical.choice, Quot.sound only; hand-written model tied to the code by differential "
+                   "testing of this run's inputs; the reference reader is the specification of 'parses back'. Records are created at a fixed "
+                   "virtual time (the crate's clock seam).",
+        assumptions=[
+            "names are valid UTF-8 (Rust String); '.' and '\\' never occur inside a multi-byte sequence, so the crate's char loops are modelled as byte loops",
+            "DnsOutgoing.multicast is always true (no code path clears it), hence the id on the wire is 0",
+            "HINFO / NSEC records are outside the property's quantifier and are not generated",
+        ],
+    ),
     "C16": dict(
         modules=["Mdns.Props.C16"],
         model_files="Mdns/Model/Txt.lean",
@@ -750,6 +926,55 @@ CONFIG["C12"] = dict(
     partial=["wake_sound is proved for the scheduler fragment (retransmissions, resolver deadlines, interface check); probing, "
              "record refresh/expiry and verify timers are checked by the two-scheduler oracle only"],
     assumptions=["one `now` per loop iteration", "hash-order dependent tie-breaks may make the two executions diverge; packet content is compared canonically (sorted, without TTLs)"],
+)
+
+CONFIG["C17"] = dict(
+    modules=["Mdns.Props.C17"],
+    model_files="Mdns/Model/Sched.lean, Mdns/Model/Cache.lean",
+    nontrivial=_sim_nontrivial,
+    extra_evidence=_sim_extra,
+    rule="histories on real daemon threads under the simulation seams, from VERIF_SEED (harness/src/c17.rs, scen.rs): three "
+         "quarters with a scripted responder (crafted A/AAAA/SRV/TXT/PTR packets: several addresses per host, IPv4 and IPv6, "
+         "TTLs 1..4500 s, cache-flush updates, goodbyes, letter-case variants of the host name on the caller and responder "
+         "side, time-outs 1.5 s..200 s, verify requests), one quarter with real responder daemons (register / unregister / "
+         "shutdown). Non-trivial = at least one packet and one client event. Distinct = distinct scripts.",
+    level_text="The monitor ok_C17 decides on every real history: each AddressesFound lists only addresses with a delivered, "
+               "still usable A/AAAA record for that host name (letter case ignored), tagged with the interface they arrived on; "
+               "each AddressesRemoved lists only addresses of which some record has run out; SearchStarted first, SearchTimeout "
+               "then SearchStopped at the deadline, no query afterwards (shared with C13); the A+AAAA back-off is C19's. Lean "
+               "theorems on the scheduler model: keyed by the lower-cased name (stop and time-out independent of letter case), "
+               "A and AAAA at once, no retransmission beyond the deadline, time-out contract; on the cache model: look-ups by "
+               "lower-cased name. Responder-free histories are predicted exactly by the scheduler model.",
+    level_note="Trusted: Lean kernel; allowed axioms only; simulation seams; the address-event clauses are decided by an oracle "
+               "computed from the delivered records (record identity includes the cache-flush bit, as in the daemon), not by a "
+               "model prediction; the exact expiry millisecond of an address in AddressesFound is left open (statement masks it).",
+    partial=["address events (found/removed) have no model-level theorem yet: the client-side daemon model is under construction",
+             "refresh of addresses at 80 % is covered at record level by C11 (resolution_refresh_once), not observed here as a clause"],
+    assumptions=["event receivers stay alive", "histories with verify requests are not judged for AddressesRemoved (verify shortens lifetimes)"],
+)
+
+CONFIG["C20"] = dict(
+    modules=["Mdns.Props.C20"],
+    model_files="Mdns/Model/Cache.lean, Mdns/Model/Sched.lean",
+    nontrivial=_sim_nontrivial,
+    extra_evidence=_sim_extra,
+    rule="client histories with a scripted responder (harness/src/c17.rs generate_c20): announcements, partial record sets "
+         "without PTR, foreign types and foreign PTR-less records, goodbyes, TTLs 1..4500 s, browses and hostname searches "
+         "started and stopped, get_metrics readings along the way and after tails of 20 s .. 5000 s (beyond every TTL and "
+         "beyond the one-hour life of a cancelled retransmission timer). Non-trivial = at least one packet and one client "
+         "event. Distinct = distinct scripts.",
+    level_text="`drained` (after every cached record has expired one eviction pass leaves all five cache tables empty, including "
+               "records no PTR points to - the repair of D19), `evict_only_removes`, `idle_arms_nothing` are Lean theorems on "
+               "the cache / scheduler models (the cache model is compared with the real DnsCache op by op in C11). The monitor "
+               "ok_C20 reads the daemon's own metrics on real histories: no cached record and at most the interface-check timer "
+               "once every TTL has passed and all searches ended; at every reading, no more cached records than the usable "
+               "delivered records some search of the history needs.",
+    level_note="Trusted: Lean kernel; allowed axioms only; simulation seams; the daemon-level clauses are decided by the monitor "
+               "on metrics, not by a model prediction. Keys left empty in the maps of records the cache declines are not visible "
+               "in the metrics and not judged.",
+    partial=["`bounded` (size <= f(active searches)) is monitor-only; the acceptance rule for PTR-less packets makes it false of the "
+             "code (known finding D25)"],
+    assumptions=["metrics are the observable (as the statement says)"],
 )
 
 # C19 = component level (delay arithmetic, `backoff` ops) + daemon level (scheduler model, `sim` histories)
